@@ -201,7 +201,7 @@ def c_compilable(decls):
     for d in decls:
         if d[0] in COMPOUND:
             for t in d[2]:
-                if t[0] == 'void' or (t[0] == 'ni' and t[1] != 'long double'):
+                if has_kind(t, ('void',)) or (t[0] == 'ni' and t[1] != 'long double'):
                     return False
     return True
 
